@@ -17,7 +17,9 @@ EXTENDS VFS, SequencesExt
 
 CONSTANTS Procs, Scenario, MaxIno, KMaxLinks,
           TolerateEEXIST,    \* TRUE = the code; FALSE = mechanism removed (a racing creator makes the loser fail)
-          MaxAttack          \* attacker budget: renames of directories (never the root's own dentry) between any two steps
+          MaxAttack,         \* attacker budget: renames of directories (never the root's own dentry) between any two steps
+          RefuseDotDotTail,  \* TRUE = the code (root.rs: ".." in the not-yet-existing tail is refused); FALSE = mechanism removed
+          AtkMkdirNames      \* names the attacker may create inside the root (a component the lookup found missing appears)
 
 VARIABLES fs, fs0, pth, pc, k, lasterr, cur, parts, res, nextIno,
           who,     \* the process that made the last step (read by the schedule generator only)
@@ -78,7 +80,7 @@ Reopen(p) ==
     /\ LET tail == SelectSeq(parts[p], LAMBDA c : c \notin {"", "."}) IN
        IF lasterr[p] \notin {"", "ENOENT"} THEN Fail(p, lasterr[p]) /\ UNCHANGED parts
        ELSE IF ~IsDir(fs, cur[p]) THEN Fail(p, "ENOTDIR") /\ UNCHANGED parts
-       ELSE IF \E i \in DOMAIN tail : tail[i] = ".." THEN Fail(p, "ENOENT") /\ UNCHANGED parts
+       ELSE IF RefuseDotDotTail /\ \E i \in DOMAIN tail : tail[i] = ".." THEN Fail(p, "ENOENT") /\ UNCHANGED parts
        ELSE IF tail = <<>> THEN res' = [res EXCEPT ![p] = Ok(cur[p])] /\ pc' = [pc EXCEPT ![p] = "done"] /\ UNCHANGED parts
        ELSE parts' = [parts EXCEPT ![p] = tail] /\ pc' = [pc EXCEPT ![p] = "mk"] /\ UNCHANGED res
     /\ UNCHANGED <<fs, fs0, k, lasterr, cur, nextIno>>
@@ -111,13 +113,23 @@ Attack ==
     /\ natk' = natk + 1 /\ who' = "attacker"
     /\ UNCHANGED <<fs0, pc, k, lasterr, cur, parts, res, nextIno, outsideMk>>
 
+\* the attacker creates a directory inside the root under one of AtkMkdirNames (e.g. the component the partial lookup
+\* has just found missing, so that a later, shorter attempt of the lookup resolves through it)
+AttackMkdir ==
+    /\ natk < MaxAttack /\ \E p \in Procs : pc[p] # "done"
+    /\ \E d \in ReachFrom(fs, {R}) : \E n \in AtkMkdirNames :
+          /\ IsDir(fs, d) /\ ~HasChild(fs, d, n)
+          /\ LET m == Mkdirat(fs, d, n, nextIno) IN m.res.ok /\ fs' = m.fs
+    /\ nextIno' = nextIno + 1 /\ natk' = natk + 1 /\ who' = "attacker"
+    /\ UNCHANGED <<fs0, pc, k, lasterr, cur, parts, res, outsideMk>>
+
 LibStep(p) ==
     /\ (Try(p) \/ Reopen(p) \/ Mk(p) \/ Open(p))
     /\ who' = p /\ natk' = natk
     \* C03 ghost: a creating step whose parent directory was never inside the root
     /\ outsideMk' = (outsideMk \/ (pc[p] = "mk" /\ cur[p] \notin everIn))
 
-Next == /\ ((\E p \in Procs : LibStep(p)) \/ Attack)
+Next == /\ ((\E p \in Procs : LibStep(p)) \/ Attack \/ AttackMkdir)
         /\ everIn' = everIn \cup ReachFrom(fs', {R})
         /\ pth' = pth
 Spec == Init /\ [][Next]_vars
